@@ -28,7 +28,10 @@ THEMES = {
                  '<!DOCTYPE a PUBLIC "x"', "<!DOCTYPE a SYSTEM", "<!DOCTYPE a SYSTEM '", "<!DOCTYPE a SYSTEM 'x'", "<!doc", ""],
                 [("data", None, False)]),
     "raw": (["<", "/", "a", ">", " ", "-", "!", "script", "title", "SCRIPT", "&", NUL, "x", "\r", "</script", "</ScRiPt"],
-            ["", "<!--", "<!--<script", "<!--<script>", "</", "<!--<script></script", "<!--<SCRIPT></ScRiPt", "<!--<ScRiPt", "</TITLE", "</STYLE"],
+            ["", "<!--", "<!--<script", "<!--<script>", "</", "<!--<script></script", "<!--<SCRIPT></ScRiPt", "<!--<ScRiPt", "</TITLE", "</STYLE",
+             # inside the (double-)escaped dash / dash-dash states, so that words of the seeded depth leave them and still
+             # have letters left to show in which state the tokenizer ended up
+             "<!--<script>-", "<!--<script>--", "<!---", "<!----"],
             [("rcdata", "title", False), ("rawtext", "style", False), ("script_data", "script", False),
              ("plaintext", "plaintext", False), ("rcdata", None, False), ("script_data", "title", False),
              ("rawtext", "xmp", False), ("rcdata", "a", False)]),
